@@ -13,6 +13,7 @@ Local Open Scope N_scope.
 
 (** * Cases *)
 Record crun := mkCRun {
+  cr_dir : option (list (str * file));   (* Some d: the directory's content was replaced by d before this run *)
   cr_params : option params;
   cr_handlers : list handler;
   cr_beh : agent_beh;
@@ -38,8 +39,19 @@ Fixpoint afault_of (l : list (nat * afault)) (n : nat) : option afault :=
   end.
 Definition signer_of (l : list sout) (n : nat) : sout := nth n l SErr.
 
-Definition run_in_of (c : crun) : run_in :=
-  mkRunIn (cr_params c) (cr_handlers c) (cr_beh c) (afault_of (cr_afault c)) (signer_of (cr_signer c)).
+Definition run_in_of (dir : list (str * file)) (c : crun) : run_in :=
+  mkRunIn (dir_of dir) (cr_params c) (cr_handlers c) (cr_beh c) (afault_of (cr_afault c)) (signer_of (cr_signer c)).
+
+(** the runs' inputs: each run sees the directory as last written *)
+Fixpoint run_ins (cur : list (str * file)) (runs : list crun) : list run_in :=
+  match runs with
+  | [] => []
+  | c :: r => let d := match cr_dir c with Some d => d | None => cur end in run_in_of d c :: run_ins d r
+  end.
+
+(** every directory content of the session *)
+Definition all_dirs (dir : list (str * file)) (runs : list crun) : list (str * file) :=
+  dir ++ flat_map (fun c => match cr_dir c with Some d => d | None => [] end) runs.
 
 (** * Agreement of observations *)
 Definition kind_opt_eqb (a b : option gkind) : bool := option_eqb gkind_eqb a b.
@@ -49,7 +61,7 @@ Definition obs_eqb (a b : run_obs) : bool :=
 
 Definition model_obs (dir : list (str * file)) (store0 : list ident) (chal keys : list N)
   (runs : list crun) : list run_obs :=
-  snd (session (dir_of dir) (stream_of chal) (stream_of keys) (map run_in_of runs) (init_state store0)).
+  snd (session (stream_of chal) (stream_of keys) (run_ins dir runs) (init_state store0)).
 
 Definition agree (c : case) : bool :=
   match c with
@@ -206,13 +218,13 @@ Definition oracle_c01_run (dir : str -> option file) (po : option params) (hs : 
 
 (** A session: every run satisfies the above, and challenges are fresh — no
     two sign requests of the session carry the same data. *)
-Definition oracle_c01_session (dir : str -> option file) (ins : list run_in) (os : list run_obs) : bool :=
-  forallb2 (fun ri o => oracle_c01_run dir (ri_params ri) (ri_handlers ri) o) ins os &&
+Definition oracle_c01_session (ins : list run_in) (os : list run_obs) : bool :=
+  forallb2 (fun ri o => oracle_c01_run (ri_dir ri) (ri_params ri) (ri_handlers ri) o) ins os &&
   nodup_n (flat_map (fun o => sign_data (o_log o)) os).
 
 Definition oracle_c01 (c : case) : bool :=
   match c with
-  | CSession dir _ _ _ runs => oracle_c01_session (dir_of dir) (map run_in_of runs) (map cr_obs runs)
+  | CSession dir _ _ _ runs => oracle_c01_session (run_ins dir runs) (map cr_obs runs)
   | CNewHandler _ _ => true
   end.
 
@@ -298,7 +310,7 @@ Fixpoint oracle_c02_session (old_keys : list N) (ins : list run_in) (os : list r
 Definition oracle_c02 (c : case) : bool :=
   match c with
   | CSession dir store0 _ _ runs =>
-      oracle_c02_session (file_keys dir ++ store_keys store0) (map run_in_of runs) (map cr_obs runs)
+      oracle_c02_session (file_keys (all_dirs dir runs) ++ store_keys store0) (run_ins dir runs) (map cr_obs runs)
   | CNewHandler _ _ => true
   end.
 
@@ -373,7 +385,7 @@ Fixpoint oracle_c03_session (before : list ident) (ins : list run_in) (os : list
 
 Definition oracle_c03 (c : case) : bool :=
   match c with
-  | CSession _ store0 _ _ runs => oracle_c03_session store0 (map run_in_of runs) (map cr_obs runs)
+  | CSession dir store0 _ _ runs => oracle_c03_session store0 (run_ins dir runs) (map cr_obs runs)
   | CNewHandler _ _ => true
   end.
 
@@ -503,7 +515,7 @@ Definition oracle_c04_session (ins : list run_in) (os : list run_obs) : bool :=
 
 Definition oracle_c04 (c : case) : bool :=
   match c with
-  | CSession _ _ _ _ runs => oracle_c04_session (map run_in_of runs) (map cr_obs runs)
+  | CSession dir _ _ _ runs => oracle_c04_session (run_ins dir runs) (map cr_obs runs)
   | CNewHandler _ _ => true
   end.
 
